@@ -874,8 +874,36 @@ def check_required_accessor(ctx: Ctx) -> None:
     ctx.need(n >= 2, "MutableMappingSchemaBuilder.required: returns not found")
 
 
+def check_rename_hooks(ctx: Ctx) -> None:
+    """15.11 every grammar class renames an element by MOVING it (`m[new] = m.pop(current)`): "assign, then delete the old
+    key" deletes the element itself when the two names are equal (an identity entry of a renaming table), silently for an
+    optional element."""
+    from gv.props.shared import literal_facts
+
+    base = ctx.index.cls(BG, "BaseGrammar")
+    n = 0
+    for cls, f in ctx.index.overriders(base, "_rename_element"):
+        if cls == base:
+            continue
+        n += 1
+        con = cname(cls.module.relpath, cls.qualname, "_rename_element")
+        cur, new_ = [a.arg for a in f.args.args if a.arg != "self"][:2]
+        cfg = cfg_of(f)
+        stores = [st for st in stmts_of(f) if isinstance(st, ast.Assign) and isinstance(st.targets[0], ast.Subscript) and dotted(st.targets[0].slice) == new_]
+        removals = [st for st in stmts_of(f) if (isinstance(st, ast.Delete) and any(isinstance(t, ast.Subscript) and dotted(t.slice) == cur for t in st.targets)) or (isinstance(st, ast.Expr) and isinstance(st.value, ast.Call) and last_attr(st.value) == "pop" and st.value.args and dotted(st.value.args[0]) == cur)]
+        bad = []
+        for r in removals:
+            guarded = any(((f"{cur} != {new_}" in k_ or f"{new_} != {cur}" in k_) and v_) or ((f"{cur} == {new_}" in k_ or f"{new_} == {cur}" in k_) and not v_) for k_, v_ in literal_facts(cfg, cfg.node_of(r)).items())
+            if not guarded and any(cfg.reachable(cfg.node_of(st), cfg.node_of(r)) for st in stores):
+                bad.append(r)
+        moved = any(isinstance(st.value, ast.Call) and last_attr(st.value) == "pop" and st.value.args and dotted(st.value.args[0]) == cur for st in stores) or bool(removals)
+        ctx.ob("15.11-rename-moves", con, not bad and moved and bool(stores), f"{cls.qualname}._rename_element stores the element under the new name and then removes the old key: when the names are equal the element it has just stored is removed (the other grammar classes keep it, so the same history gives different grammars)", node=(bad or stores or [f])[0], stmt="the element is moved: m[new] = m.pop(current)")
+    ctx.floor("15.11-rename-moves", 3)
+
+
 def run(ctx: Ctx) -> None:
     check_required_accessor(ctx)
+    check_rename_hooks(ctx)
     check_update_switch(ctx)
     check_update_source_untouched(ctx)
     check_builder_required(ctx)
